@@ -241,6 +241,10 @@ static ares_status_t parse_nameserver_uri(ares_buf_t     *buf,
       status = ARES_EBADSTR;
       goto done;
     }
+    if (atoi(port) > 65535) {
+      status = ARES_EBADSTR;
+      goto done;
+    }
     sconfig->tcp_port = (unsigned short)atoi(port);
   }
 
@@ -357,6 +361,11 @@ static ares_status_t parse_nameserver(ares_buf_t *buf, ares_sconfig_t *sconfig)
     status = ares_buf_tag_fetch_string(buf, portstr, sizeof(portstr));
     if (status != ARES_SUCCESS) {
       return status;
+    }
+
+    /* at most 5 digits: fits an int; a port above 65535 must not wrap */
+    if (atoi(portstr) > 65535) {
+      return ARES_EBADSTR;
     }
 
     sconfig->udp_port = (unsigned short)atoi(portstr);
